@@ -24,7 +24,10 @@ Definition beat_ext (f : string) (vs : list bv) : out bv :=
   else if f =? "_get_reference_beat_variations" then match vs with [VArrQ r] => OK (v_vars r) | _ => UNM end
   else UNM.
 Local Close Scope string_scope.
-Definition run (fexp : Q -> Q) (f : fdef) (args : list bv) : out bv := run_fun beat_sigs beat_ext fexp f args.
+(* a run with the callees given by [ext]; [run] = the callees are the model's functions *)
+Definition runx (ext : string -> list bv -> out bv) (fexp : Q -> Q) (f : fdef) (args : list bv) : out bv :=
+  run_fun beat_sigs ext fexp f args.
+Definition run (fexp : Q -> Q) (f : fdef) (args : list bv) : out bv := runx beat_ext fexp f args.
 
 (* results up to == *)
 Definition xeq (a b : xval) : Prop :=
@@ -47,15 +50,15 @@ Lemma vselect_map_filter {A} (p : A -> bool) l : vselect (map p l) l = filter p 
 Proof. induction l as [|x t IH]; [reflexivity|]. cbn [map vselect filter]. destruct (p x); rewrite IH; reflexivity. Qed.
 
 (* ================================================================== trim_beats *)
-Theorem trim_beats_tie : forall fexp (b : list Q) (m : Q) (py : bool),
-  run fexp gen_trim_beats [VArrQ b; VFlt py (Fin m)] = OK (VArrQ (Beat.trim_beats b m)).
+Theorem trim_beats_tie : forall ext fexp (b : list Q) (m : Q) (py : bool),
+  runx ext fexp gen_trim_beats [VArrQ b; VFlt py (Fin m)] = OK (VArrQ (Beat.trim_beats b m)).
 Proof.
-  intros. unfold run, run_fun. cbn. rewrite map_length, Nat.eqb_refl, vselect_map_filter. reflexivity.
+  intros. unfold runx, run_fun. cbn. rewrite map_length, Nat.eqb_refl, vselect_map_filter. reflexivity.
 Qed.
-Theorem trim_beats_tie_int : forall fexp (b : list Q) (m : Z) (py : bool),
-  run fexp gen_trim_beats [VArrQ b; VInt py m] = OK (VArrQ (Beat.trim_beats b (inject_Z m))).
+Theorem trim_beats_tie_int : forall ext fexp (b : list Q) (m : Z) (py : bool),
+  runx ext fexp gen_trim_beats [VArrQ b; VInt py m] = OK (VArrQ (Beat.trim_beats b (inject_Z m))).
 Proof.
-  intros. unfold run, run_fun. cbn. rewrite map_length, Nat.eqb_refl, vselect_map_filter. reflexivity.
+  intros. unfold runx, run_fun. cbn. rewrite map_length, Nat.eqb_refl, vselect_map_filter. reflexivity.
 Qed.
 
 (* ================================================================== _get_reference_beat_variations *)
@@ -182,12 +185,12 @@ Proof.
   rewrite (Qceiling_comp _ _ E), Qceiling_Z, Nat2Z.id. reflexivity.
 Qed.
 
-Theorem variations_tie : forall fexp ref, exists d,
-  run fexp gen_get_reference_beat_variations [VArrQ ref]
+Theorem variations_tie : forall ext fexp ref, exists d,
+  runx ext fexp gen_get_reference_beat_variations [VArrQ ref]
   = OK (VTup [VArrQ ref; VArrQ (Beat.odds d); VArrQ d; VArrQ (Beat.evens ref); VArrQ (Beat.odds ref)])
   /\ leq d (Beat.double_beats ref).
 Proof.
-  intros fexp ref. unfold run, run_fun. destruct ref as [|a t].
+  intros ext fexp ref. unfold runx, run_fun. destruct ref as [|a t].
   - exists []. split; [vm_compute; reflexivity|constructor].
   - cbn. rewrite map_length, zrange_0, map_length, seq_length.
     rewrite Nat.eqb_refl. cbn [negb seq map]. cbn.
@@ -206,12 +209,12 @@ Proof.
       pose proof (injZ_nonneg j). change (inject_Z 0) with 0. lra.
 Qed.
 
-Theorem variations_tie_all : forall fexp ref, exists v1 v2,
-  run fexp gen_get_reference_beat_variations [VArrQ ref]
+Theorem variations_tie_all : forall ext fexp ref, exists v1 v2,
+  runx ext fexp gen_get_reference_beat_variations [VArrQ ref]
   = OK (VTup [VArrQ ref; VArrQ v1; VArrQ v2; VArrQ (Beat.evens ref); VArrQ (Beat.odds ref)])
   /\ Forall2 leq [ref; v1; v2; Beat.evens ref; Beat.odds ref] (Beat.variations ref).
 Proof.
-  intros fexp ref. destruct (variations_tie fexp ref) as (d & E & Hd). exists (Beat.odds d), d. split; [exact E|].
+  intros ext fexp ref. destruct (variations_tie ext fexp ref) as (d & E & Hd). exists (Beat.odds d), d. split; [exact E|].
   assert (R : forall l, leq l l) by (intros l; induction l; constructor; [reflexivity|assumption]).
   unfold Beat.variations. repeat constructor; try apply R; [apply BeatProps.F2_odds|]; exact Hd.
 Qed.
